@@ -218,6 +218,20 @@ func (x *exec) directRender(name string, v view.View, extra int) {
 	}
 }
 
+// twoLines stands in for the command prompt the UI puts below a mode's view:
+// an element of exactly two lines.
+type twoLines struct{}
+
+func (twoLines) MinLines() int { return 2 }
+func (twoLines) MaxLines() int { return 2 }
+func (twoLines) Print(n int) error {
+	if n < 2 {
+		return fmt.Errorf("two lines needed")
+	}
+	fmt.Print("\nEnter command: ")
+	return nil
+}
+
 func (x *exec) doRender(ev Ev) {
 	switch ev.V {
 	case "dis":
@@ -227,6 +241,13 @@ func (x *exec) doRender(ev Ev) {
 	case "emu":
 		if x.s.emu != nil {
 			x.directRender("emulator-composite", x.s.emu.View(), ev.N)
+			if !x.stop {
+				// the same view as the UI nests it: above a two-line element
+				var nested view.View
+				if _, _, p := core.Guard(func() { nested = view.NewComposite(x.s.emu.View(), twoLines{}) }); !p && nested != nil {
+					x.directRender("emulator-composite-nested", nested, ev.N)
+				}
+			}
 			// The register table declares a fixed height (what the
 			// composite's minimum adds to the listing's minimum and the
 			// separator line): it must write exactly that many lines.
@@ -1253,6 +1274,15 @@ func (e *Engine) Execute(tr core.Trace, ctx *core.Ctx) {
 		ctx.Fail("C22", "run-returns", "run/nil-without-quit", x.ev, "Run() returned nil although the application was not quit")
 	case res.err != nil && !(s.ended || strings.Contains(res.err.Error(), "terminal size") || strings.Contains(res.err.Error(), "cannot print screen")):
 		ctx.Fail("C22", "run-returns", "run/unexpected-error", x.ev, "Run() returned an unexpected error: %v", res.err)
+	case res.err != nil && !s.ended && strings.Contains(res.err.Error(), "element printing failed") && !strings.Contains(res.err.Error(), "not enough lines to render"):
+		// the program gave up in the middle of a session although input was
+		// still flowing and the terminal could be asked: the line typed last
+		// was neither executed nor answered with an error message
+		line := ""
+		if x.tr.pending != nil {
+			line = x.tr.pending.line
+		}
+		ctx.Fail("C22", "run-returns", "run/ended-by-render-error", x.ev, "after %q the program ended itself: %v", line, res.err)
 	}
 	if res.err != nil && strings.Contains(res.err.Error(), "not enough lines to render") {
 		ctx.Probe("render_error_returned")
